@@ -131,43 +131,43 @@ theorem T5_seek_range_bounds (bs : List Bool) (hb : bs.length ≤ KEY_BITS) :
 
 /-! ### non-vacuity: a world with two keys, the free hasher, a cold cache -/
 
-def kA : Key := List.replicate 256 false
-def kB : Key := true :: List.replicate 255 false
-def exLeaves : List (Leaf Nat) := [⟨kA, [(kA, 1), (kB, 2)]⟩]
-def exView : KVL Nat := [(kA, 1), (kB, 2)]
-def exRoot : MPage T :=
-  { nodes := fun i => if i = 0 then .leaf kA 1 else if i = 1 then .leaf kB 2 else .term, elided := 0 }
-def exEnv : Env T Nat Nat :=
-  { kind := TH.kind, root := nodeAt TH 256 0 exView, record := true, primary := [], secondary := [], leaves := exLeaves,
-    vh := id, ov := [], ovPages := [], disk := [([], exRoot)], recon := reconSpec TH }
-def exW : World T Nat Nat :=
-  { env := exEnv, H := TH, view := exView, U := fun p => if p = [] then some exRoot else none, G := fun p => p = [] }
+def skA : Key := List.replicate 256 false
+def skB : Key := true :: List.replicate 255 false
+def skLeaves : List (Leaf Nat) := [⟨skA, [(skA, 1), (skB, 2)]⟩]
+def skView : KVL Nat := [(skA, 1), (skB, 2)]
+def skRoot : MPage T :=
+  { nodes := fun i => if i = 0 then .leaf skA 1 else if i = 1 then .leaf skB 2 else .term, elided := 0 }
+def skEnv : Env T Nat Nat :=
+  { kind := TH.kind, root := nodeAt TH 256 0 skView, record := true, primary := [], secondary := [], leaves := skLeaves,
+    vh := id, ov := [], ovPages := [], disk := [([], skRoot)], recon := reconSpec TH }
+def skW : World T Nat Nat :=
+  { env := skEnv, H := TH, view := skView, U := fun p => if p = [] then some skRoot else none, G := fun p => p = [] }
 
-theorem ex_under_one (b : Bool) : (under [b] exView).length = 1 := by cases b <;> decide +kernel
+theorem sk_under_one (b : Bool) : (under [b] skView).length = 1 := by cases b <;> decide +kernel
 
-theorem exW_rep : Rep exW := by
+theorem skW_rep : Rep skW := by
   refine ⟨rfl, ?_⟩
   intro P hP _
   have : P = [] := hP
   subst this
-  refine ⟨exRoot, rfl, ?_, ?_⟩
+  refine ⟨skRoot, rfl, ?_, ?_⟩
   · intro bs hne hlen hsp hthr
     match bs, hne with
     | [b], _ => cases b <;> decide +kernel
     | a :: b :: rest, _ =>
       have := hthr 1 (by simp) (by simp)
       simp only [List.take_succ_cons, List.take_zero] at this
-      have h1 : (under [a] exW.view).length = 1 := ex_under_one a
+      have h1 : (under [a] skW.view).length = 1 := sk_under_one a
       omega
   · intro bs hl hlen hsp hthr h2
     match bs, hl with
     | a :: b :: rest, _ =>
       have := hthr 1 (by simp) (by simp)
       simp only [List.take_succ_cons, List.take_zero] at this
-      have h1 : (under [a] exW.view).length = 1 := ex_under_one a
+      have h1 : (under [a] skW.view).length = 1 := sk_under_one a
       omega
 
-theorem exW_ok : exW.OK where
+theorem skW_ok : skW.OK where
   sound := TH_sound
   kind := rfl
   root := rfl
@@ -180,44 +180,44 @@ theorem exW_ok : exW.OK where
     · intro l' hl'; cases hl'
   firstSep := by
     intro l hl k hk
-    have : l = ⟨kA, [(kA, 1), (kB, 2)]⟩ := by simpa [exW, exEnv, exLeaves] using hl.symm
+    have : l = ⟨skA, [(skA, 1), (skB, 2)]⟩ := by simpa [skW, skEnv, skLeaves] using hl.symm
     subst this
     exact bitsLt_zeros k 256 hk
   ov := List.Pairwise.nil
   viewEq := by
-    show exView = kvApply (vhMap id (kvApply (flat exLeaves) (smerge [] []))) []
+    show skView = kvApply (vhMap id (kvApply (flat skLeaves) (smerge [] []))) []
     rw [smerge_nil_right]
     decide +kernel
   viewLen := by decide +kernel
   baseLen := by
-    show ∀ kv ∈ kvApply (flat exLeaves) (smerge [] []), kv.1.length = KEY_BITS
+    show ∀ kv ∈ kvApply (flat skLeaves) (smerge [] []), kv.1.length = KEY_BITS
     rw [smerge_nil_right]
     decide +kernel
   ovLen := by intro e he; cases he
-  rep := exW_rep
-  recon := reconSpec_ok exW rfl
+  rep := skW_rep
+  recon := reconSpec_ok skW rfl
 
-theorem exW_mem : MemOK exW [] := by
+theorem skW_mem : MemOK skW [] := by
   intro p
   by_cases h : p = []
   · subst h; rfl
   · have hb : (p == ([] : PageId)) = false := by simpa using h
-    simp [exW, exEnv, List.lookup, hb, h]
+    simp [skW, skEnv, List.lookup, hb, h]
 
 /-- the hypotheses of `T5_seek_is_proveSpec` are met … -/
-example : exW.OK ∧ PSInv exW ({} : Sys T Nat Nat).ps ∧ MemOK exW ({} : Sys T Nat Nat).cache :=
-  ⟨exW_ok, fun P pg o h => by simp [PageSet.get] at h, exW_mem⟩
+example : skW.OK ∧ PSInv skW ({} : Sys T Nat Nat).ps ∧ MemOK skW ({} : Sys T Nat Nat).cache :=
+  ⟨skW_ok, fun P pg o h => by simp [PageSet.get] at h, skW_mem⟩
 
-def resOf (o : Outcome Unit (Sys T Nat Nat)) (i : Nat) : Option (Option (Key × Nat) × List T × Nat) :=
+def skRes (o : Outcome Unit (Sys T Nat Nat)) (i : Nat) : Option (Option (Key × Nat) × List T × Nat) :=
   match o with
   | .ok s => (s.reqs[i]?.bind (·.1.result)).map (fun r => (r.terminal, r.sibs, r.pos.depth))
   | _ => none
 
 /-- … and the mirror really gets there (kernel evaluation): two interleaved seeks over a cold cache — the root page
 comes from the hash table once, the second request finds it in the page set; each fetches the b-tree leaf -/
-example : resOf (Seek.run exEnv {} [.push kB, .push kA, .step 0, .supplyPage 0, .step 1, .step 0, .step 1,
-      .supplyLeaf 1, .supplyLeaf 0]) 0 = some (some (kB, 2), [T.leaf kA 1], 1) ∧
-    resOf (Seek.run exEnv {} [.push kB, .push kA, .step 0, .supplyPage 0, .step 1, .step 0, .step 1,
-      .supplyLeaf 1, .supplyLeaf 0]) 1 = some (some (kA, 1), [T.leaf kB 2], 1) := by decide +kernel
+example : skRes (Seek.run skEnv {} [.push skB, .push skA, .step 0, .supplyPage 0, .step 1, .step 0, .step 1,
+      .supplyLeaf 1, .supplyLeaf 0]) 0 = some (some (skB, 2), [T.leaf skA 1], 1) ∧
+    skRes (Seek.run skEnv {} [.push skB, .push skA, .step 0, .supplyPage 0, .step 1, .step 0, .step 1,
+      .supplyLeaf 1, .supplyLeaf 0]) 1 = some (some (skA, 1), [T.leaf skB 2], 1) := by decide +kernel
 
 end Nomt.C05
